@@ -27,6 +27,7 @@ import (
 
 	"github.com/tsawler/tabula"
 	"github.com/tsawler/tabula/layout"
+	"github.com/tsawler/tabula/model"
 	"github.com/tsawler/tabula/reader"
 	"github.com/tsawler/tabula/text"
 
@@ -663,6 +664,27 @@ func runPDF(c *fw.Ctx, id string, pc pdfCase, attribute func(pr problem) string)
 			}
 			rd.Close()
 			k.text("reader.ExtractText", sb.String())
+		}
+		// the page model carries the page's text once (chunk and Markdown renderings re-spell list markers, so they are judged by tokens in C10/C12)
+		if doc, _, err := tabula.Open(pc.path).Document(); err != nil {
+			k.probs = append(k.probs, problem{"Document", "error", "Document: " + err.Error(), nil})
+		} else {
+			var sb strings.Builder
+			for _, pg := range doc.Pages {
+				for _, el := range pg.Elements {
+					switch v := el.(type) {
+					case *model.Heading:
+						sb.WriteString(v.Text + "\n")
+					case *model.Paragraph:
+						sb.WriteString(v.Text + "\n")
+					case *model.List:
+						for _, it := range v.Items {
+							sb.WriteString(it.Bullet + " " + it.Text + "\n")
+						}
+					}
+				}
+			}
+			k.text("Document.Elements", sb.String())
 		}
 		if ls, err := tabula.Open(pc.path).Lines(); err != nil {
 			k.probs = append(k.probs, problem{"Lines", "error", "Lines: " + err.Error(), nil})
